@@ -4,7 +4,8 @@
    gives an online, append-only assembler).  Proved for the id-reuse / classification / visibility logic
    of FromPcap (Import.dump, Import.classify, reader stack); the extension property itself is proved for
    no assembler here (UDP: one flow alone, see C05) and is what the correspondence runs check. *)
-From Pk Require Import Import ImportProofs ImportExamples.
+From Pk Require Import Import ImportProofs ImportExamples ImportSnapshot ImportRestart BuilderOrder UdpInterleave.
+From Coq Require Import Sorting.Permutation.
 
 (* (2a) after any such sequence of imports a view shows under id j exactly the j-th assembled stream *)
 Theorem C08_batches_visible : forall steps id,
@@ -52,18 +53,70 @@ Example C08_chain_example : extends [1] [s_p1] [s_p12] /\ wf_factory [s_p1] /\ w
                             chain [] [([0], [s_p1]); ([1], [s_p12])].
 Proof. exact extends_example. Qed.
 
-(* (1) snapshots: only the CHOICE of the snapshot is proved (stored, not younger than the oldest new
-   packet, youngest such; none chosen only if none usable).  Transparency of the replay from a snapshot
-   is not proved -- it is checked by the correspondence runs (snapshot points every 1..30 packets and the
-   real interval), which found and led to the repair ca95540. *)
-Theorem C08_snapshot_choice_sound_partial : forall snaps oldest b,
+(* (1) WITH OR WITHOUT SNAPSHOTS.
+   (1a) the choice: stored, not younger than the oldest new packet, youngest such; none chosen only if none usable *)
+Theorem C08_snapshot_choice_sound : forall snaps oldest b,
   best_snapshot snaps oldest None = Some b ->
   In b snaps /\ sn_ts b <= oldest /\ (forall s, In s snaps -> sn_ts s <= oldest -> sn_ts s <= sn_ts b).
 Proof. exact snapshot_choice_sound. Qed.
 
-Theorem C08_snapshot_choice_complete_partial : forall snaps oldest,
+Theorem C08_snapshot_choice_complete : forall snaps oldest,
   best_snapshot snaps oldest None = None -> forall s, In s snaps -> oldest < sn_ts s.
 Proof. exact snapshot_choice_complete. Qed.
+
+(* (1b) pkappa2's bookkeeping (needed captures, referenced packets, packets not older than the snapshot, lazy merge):
+   with snapshot s the reassemblers are fed exactly the kept sub-sequence of the feed they get without a snapshot *)
+Theorem C08_feed_with_snapshot_is_filter : forall (b : builder) (st : store) (nf : list N) (s : snapshot),
+  store_wf st (b_known b) -> refs_before s st ->
+  let newP := flat_map (store_get st) nf in
+  (forall p, In p newP -> sn_ts s <= p_ts p) ->
+  feed (needed_pcaps b (Some s) nf st) newP = filter (keepb s) (feed (needed_pcaps b None nf st) newP).
+Proof. exact feed_with_snapshot_is_filter. Qed.
+
+(* (1c) transparency, modulo the NAMED ASSEMBLER HYPOTHESIS [replay_ok]: for a snapshot recorded on the history F,
+   replaying only the kept packets reproduces every stream that contains a packet of the new captures (up to the
+   Complete flag).  Then FromPcap with the chosen snapshot = FromPcap with all snapshots dropped: same written
+   streams, ids, added/updated/reset sets, id counter, known captures.  The hypothesis is discharged for no assembler in
+   general (Example replay_hypothesis_instance: it holds in a concrete run of the model's own snapshot); it is what the
+   correspondence runs with snapshot points every 1..30 packets check, and where defect ca95540 was found. *)
+Theorem C08_snapshot_transparency : forall (hashf : N -> N) (thr : N) (final_flush : bool)
+    (valid : snapshot -> list N -> list packet -> Prop),
+  (forall s nf kept F, valid s nf F ->
+     map forget (filter (touchedb nf) (loop_fac hashf thr final_flush (Some (sn_ts s)) kept (filter (keepb s) F))) =
+     map forget (filter (touchedb nf) (loop_fac hashf thr final_flush None [] F))) ->
+  forall (b : builder) (st : store) (nf : list N) (stack : list index) (s : snapshot) i0 rest,
+  store_wf st (b_known b) ->
+  new_infos st nf = i0 :: rest ->
+  let nf' := map pi_file (i0 :: rest) in
+  let oldest := fold_left (fun m i => N.min m (pi_min i)) (i0 :: rest) (pi_min i0) in
+  best_snapshot (b_snaps b) oldest None = Some s ->
+  refs_before s st ->
+  valid s nf' (feed (needed_pcaps b None nf' st) (flat_map (store_get st) nf')) ->
+  import_view (import hashf thr final_flush b st nf stack) =
+  import_view (import hashf thr final_flush (mkBuilder (b_known b) []) st nf stack).
+Proof. exact snapshot_transparency. Qed.
+
+(* all hypotheses hold together in a run where the model itself recorded the snapshot *)
+Example C08_snapshot_transparency_applies :
+  import_view (import (fun a => a) 1 false b_after_first st2 [1] []) =
+  import_view (import (fun a => a) 1 false (mkBuilder (b_known b_after_first) []) st2 [1] []).
+Proof. exact snapshot_transparency_applies. Qed.
+
+(* (4) RESTART: a new Builder on the same directories re-derives the known captures from the pcap directory (in name
+   order) and loads the saved snapshot list; it then behaves like the running Builder for every later import *)
+Theorem C08_restart_known : forall st known dir,
+  store_wf st known -> (forall pi, In pi known -> store_get st (pi_file pi) <> []) ->
+  Permutation dir (map pi_file known) ->
+  Permutation (b_known (restart st dir nil)) known.
+Proof. exact restart_known. Qed.
+
+Theorem C08_restart_import : forall (hashf : N -> N) (thr : N) (final_flush : bool)
+    (b' b : builder) (st : store) (nf : list N) (stack : list index),
+  same_builder b' b -> store_wf st (b_known b) ->
+  (forall s, In s (b_snaps b) -> refs_before s st) ->
+  snd (import hashf thr final_flush b' st nf stack) = snd (import hashf thr final_flush b st nf stack) /\
+  same_builder (fst (import hashf thr final_flush b' st nf stack)) (fst (import hashf thr final_flush b st nf stack)).
+Proof. exact restart_import. Qed.
 
 (* (3) arbitrary arrival order: refuted on the faithful model; same witness on the code
    (corpus/C08/kf-stale-id.json, known finding stale-id-after-bridging-capture) *)
